@@ -13,11 +13,12 @@
 (* any variant of the catalogue (every field altered / substituted /       *)
 (* replayed / re-signed, every key type, every malformed encoding); an     *)
 (* honest peer connects concurrently.  The model is the decision procedure *)
-(* of the code (incl. its deviations, named); Proved is what the property  *)
-(* demands.  TLC checks AttributedOnlyIfProved over all variants and all   *)
-(* interleavings with the honest connection, and prints for every variant  *)
-(* the expected verdict (CASE records) which the conformance harness       *)
-(* executes against the real comm.Listen + comm.ServiceConnections.        *)
+(* of the code (incl. its one remaining deviation, named); Proved is what  *)
+(* the property demands.  TLC checks AttributedOnlyIfProved / NoCrash /    *)
+(* HonestServed over all variants and all interleavings with the honest    *)
+(* connection, and prints for every variant the expected verdict (CASE     *)
+(* records) which the conformance harness executes against the real        *)
+(* comm.Listen + comm.ServiceConnections.                                  *)
 (*                                                                         *)
 (* Part "fr" (property C17): framing and fault isolation.  Sending         *)
 (* goroutines enqueue into a bounded queue per destination; one writer     *)
@@ -25,7 +26,9 @@
 (* the stream; the reader of the destination decodes frame by frame and    *)
 (* hands messages over; a frame announcing more than the limit or a broken *)
 (* frame ends that connection's reader.  Peers may be down, late, stalled  *)
-(* (never reading) or garbling (raw client writing a broken frame).        *)
+(* (never reading) or garbling (raw client writing a broken frame).  A     *)
+(* Send that finds the queue full for the enqueue timeout reports it,      *)
+(* gives that copy up and goes on (nobody panics).                         *)
 (***************************************************************************)
 EXTENDS Integers, Sequences, FiniteSets, TLC, Json
 
@@ -51,9 +54,12 @@ Overs  == {"sent", "otherconn", "origA", "junk"}
 K5 == {"1", "2", "3", "4", "5"}
 K4 == {"1", "2", "3", "4"}
 EncLenient == {"trailin", "trailseq", "altstr"}   \* accepted by the decoder: bytes after the handshake, another ASN.1 string type
+\* truncation after floor(k/64 * length) bytes: "tfrac": the length prefix announces the truncated length; "sfrac": it announces
+\* the full length and the stream ends there
+EncFrac    == {"tfrac" \o ToString(k) : k \in 0..63} \cup {"sfrac" \o ToString(k) : k \in 0..63}
 EncReject  == {"tmid" \o k : k \in K5} \cup {"tend" \o k : k \in K4} \cup {"sfix" \o k : k \in K4} \cup {"scut" \o k : k \in K5}
               \cup {"wtag" \o k : k \in K5}
-              \cup {"lenshort", "lenlongeof", "lenzero", "nonminlen", "intpad", "settag", "indef", "emptyseq"}
+              \cup {"lenshort", "lenlongeof", "lenzero", "nonminlen", "intpad", "settag", "indef", "emptyseq"} \cup EncFrac
 Encs == {"ok"} \cup EncLenient \cup EncReject
 
 \* byte strings the abstract names stand for ("|" is a newline); the lookup key is their plain concatenation
@@ -102,32 +108,33 @@ CodeVerdict(h, c) ==
   ELSE IF BindVal(h.bind, c) # <<"b", c>> THEN [res |-> "reject", node |-> 0, why |-> "binding"]
   ELSE IF PemCert(h.ident) = "nopem" THEN [res |-> "reject", node |-> 0, why |-> "pem"]
   ELSE IF PemCert(h.ident) = "nocert" THEN [res |-> "reject", node |-> 0, why |-> "certificate"]
-  ELSE IF KeyType(PemCert(h.ident)) # "ecdsa" THEN [res |-> "crash", node |-> 0, why |-> "keytype-" \o KeyType(PemCert(h.ident))]  \* deviation
+  ELSE IF KeyType(PemCert(h.ident)) # "ecdsa" THEN [res |-> "reject", node |-> 0, why |-> "keytype-" \o KeyType(PemCert(h.ident))]
   ELSE IF ~SigMatches(h, c) THEN [res |-> "reject", node |-> 0, why |-> "signature"]
   ELSE IF Lookup(h) = {} THEN [res |-> "reject", node |-> 0, why |-> "lookup"]
   ELSE [res |-> "accept", node |-> (CHOOSE r \in Lookup(h) : TRUE).node, why |-> "ok"]
 
-\* named deviations of the code from the property
-DevKeyType(h, c) == CodeVerdict(h, c).res = "crash"
+\* the named deviation of the code from the property (the unchecked key-type assertion that used to crash the process on an
+\* RSA / Ed25519 identity has been repaired in the code: such an identity is a plain rejection now)
 DevConcat(h, c)  == LET v == CodeVerdict(h, c) IN v.res = "accept" /\ ~Proved(h, c, v.node)
 \* the failing class of a handshake variant (used in violation signatures)
-Class(h, c) == IF DevKeyType(h, c) THEN CodeVerdict(h, c).why
-               ELSE IF DevConcat(h, c) THEN "domain-identity-concatenation"
-               ELSE CodeVerdict(h, c).why
+Class(h, c) == IF DevConcat(h, c) THEN "domain-identity-concatenation" ELSE CodeVerdict(h, c).why
 
 Product == [dom : Doms, bind : Binds, ident : Idents, ts : Tss, by : Bys, over : Overs, enc : {"ok"}]
 ValidBases == TLCEval({h \in Product : Allowed(h, 1) # {}})
 Fields == {"dom", "bind", "ident", "ts", "by", "over"}
 Dim(f) == CASE f = "dom" -> Doms [] f = "bind" -> Binds [] f = "ident" -> Idents [] f = "ts" -> Tss [] f = "by" -> Bys [] f = "over" -> Overs
 Near1 == TLCEval(UNION {{[b EXCEPT ![f] = v] : v \in Dim(f)} : <<b, f>> \in ValidBases \X Fields})
-EncBases == IF CatMode = "full" THEN Near1 ELSE {b \in ValidBases : b.ts = "now" /\ b.by = "own" /\ b.over = "sent"} \cup
+StrictBases == {b \in ValidBases : b.ts = "now" /\ b.by = "own" /\ b.over = "sent"}
+EncBases == IF CatMode = "full" THEN Near1 ELSE StrictBases \cup
                                                   {[dom |-> "d1", bind |-> "own", ident |-> "U", ts |-> "now", by |-> "own", over |-> "sent", enc |-> "ok"]}
-EncCases == TLCEval({[b EXCEPT !.enc = e] : b \in EncBases, e \in Encs \ {"ok"}})
+EncCases == TLCEval({[b EXCEPT !.enc = e] : b \in EncBases, e \in (Encs \ {"ok"}) \ EncFrac})
+FracSet == IF CatMode = "full" THEN 0..63 ELSE {8 * k + 3 : k \in 0..7}
+FracCases == TLCEval({[b EXCEPT !.enc = p \o ToString(k)] : b \in StrictBases, p \in {"tfrac", "sfrac"}, k \in FracSet})
 \* the variants that deviate from the property in the model of the current code, found by TLC over the whole product
 DevSet == TLCEval({h \in Product : DevConcat(h, 1)})
 \* a complete valid handshake (or its signature) recorded on the attacker's other connection
 Replays == TLCEval({[b EXCEPT !.bind = bd, !.over = "otherconn"] : b \in ValidBases, bd \in {"own", "other"}})
-Catalogue == TLCEval((IF CatMode = "full" THEN Product ELSE Near1 \cup DevSet \cup Replays \cup Sample) \cup EncCases)
+Catalogue == TLCEval((IF CatMode = "full" THEN Product ELSE Near1 \cup DevSet \cup Replays \cup Sample) \cup EncCases \cup FracCases)
 
 HonestHS == [dom |-> "d1", bind |-> "own", ident |-> "B", ts |-> "now", by |-> "own", over |-> "sent", enc |-> "ok"]
 HonestNode == 2
@@ -145,7 +152,7 @@ CaseRec(h) == LET v == CodeVerdict(h, 1) IN
   [dom |-> h.dom, bind |-> h.bind, ident |-> h.ident, ts |-> h.ts, by |-> h.by, over |-> h.over, enc |-> h.enc,
    model |-> v.res, node |-> v.node, why |-> v.why, cls |-> Class(h, 1),
    allowed |-> {i \in RegNodes : Proved(h, 1, i)},
-   dev |-> IF DevKeyType(h, 1) THEN "keytype" ELSE IF DevConcat(h, 1) THEN "concat" ELSE ""]
+   dev |-> IF DevConcat(h, 1) THEN "concat" ELSE ""]
 
 HInit == /\ atk \in Catalogue
          /\ PrintT(<<"CASE", ToJson(CaseRec(atk))>>)
@@ -158,7 +165,6 @@ Auth(c) == /\ alive /\ cst[c].st = "sent"
            /\ LET v == CodeVerdict(HS(c), c) IN
               CASE v.res = "accept" -> cst' = [cst EXCEPT ![c] = [st |-> "auth", node |-> v.node]] /\ alive' = alive
                 [] v.res = "reject" -> cst' = [cst EXCEPT ![c].st = "rej"] /\ alive' = alive
-                [] v.res = "crash"  -> cst' = cst /\ alive' = FALSE
            /\ UNCHANGED <<atk, attr>>
 \* the frame that follows the handshake: handed over with the authenticated node and the claimed domain, or never read
 Frame(c) == /\ alive /\ cst[c].st \in {"auth", "rej"}
@@ -170,11 +176,10 @@ HNext == (\E c \in HConns : Dial(c) \/ SendHS(c) \/ Auth(c) \/ Frame(c)) \/ (HTe
 
 \* C16: traffic is attributed only to peers that proved their registered identity on that very connection
 AttributedOnlyIfProved == \A a \in attr : (Proved(HS(a[1]), a[1], a[2]) /\ a[3] = HS(a[1]).dom) \/ DevConcat(HS(a[1]), a[1])
-NoCrash                == alive \/ DevKeyType(atk, 1)
+NoCrash                == alive          \* no handshake whatsoever ends the receiving process
 HonestServed           == (HTerminal /\ alive) => <<3, HonestNode, "d1">> \in attr
-\* without the named deviations (expected to FAIL on the model of the current code; used to list the deviating variants)
+\* without the named deviation (expected to FAIL on the model of the current code: falsifiability of the invariant)
 StrictAttributed == \A a \in attr : Proved(HS(a[1]), a[1], a[2]) /\ a[3] = HS(a[1]).dom
-StrictNoCrash    == alive
 
 (* ====================================================================== *)
 (*                     Part "fr": framing and faults                       *)
@@ -219,9 +224,9 @@ VARIABLES fault, victim, progs,
           wire,    \* [Recvs -> sequence of message ids]   written, not yet read
           rcv,     \* [Recvs -> sequence of <<from, id>>]   handed to the application, in order
           up,      \* [Recvs -> BOOLEAN]                    something accepts connections at that address
-          pan,     \* goroutines that panicked
+          dropped, \* {<<goroutine, message index, destination>>}: copies given up after the enqueue timeout (reported, not sent)
           raw      \* the garbling peer's raw connection to the other receiver: [todo, wire, dead]
-fvars == <<fault, victim, progs, pc, q, started, link, wire, rcv, up, pan, raw>>
+fvars == <<fault, victim, progs, pc, q, started, link, wire, rcv, up, dropped, raw>>
 
 Gs == DOMAIN progs
 Other(v) == 5 - v
@@ -237,7 +242,7 @@ FInit == /\ fault \in Faults /\ victim \in Recvs /\ progs \in Progs
          /\ q = [d \in Recvs |-> <<>>] /\ started = [d \in Recvs |-> FALSE] /\ link = [d \in Recvs |-> "none"]
          /\ wire = [d \in Recvs |-> <<>>] /\ rcv = [d \in Recvs |-> <<>>]
          /\ up = [d \in Recvs |-> ~(fault \in {"down", "late"} /\ d = victim)]
-         /\ pan = {}
+         /\ dropped = {}
          /\ raw = [todo |-> IF fault = "garble" THEN RawFrames ELSE <<>>, wire |-> <<>>, dead |-> FALSE]
 
 Finished(g) == pc[g][1] > Len(progs[g])
@@ -246,48 +251,50 @@ CurDst(g) == CurMsg(g).to[pc[g][2]]
 Advance(g) == IF pc[g][2] < Len(CurMsg(g).to) THEN <<pc[g][1], pc[g][2] + 1>> ELSE <<pc[g][1] + 1, 1>>
 
 \* SocketRemoteParties.Send: start the writer once, enqueue (blocks while the queue is full)
-Enq(g) == /\ ~Finished(g) /\ g \notin pan
+Enq(g) == /\ ~Finished(g)
           /\ LET d == CurDst(g) IN
              /\ Len(q[d]) < QCap
              /\ q' = [q EXCEPT ![d] = Append(@, CurMsg(g).id)]
              /\ started' = [started EXCEPT ![d] = TRUE]
           /\ pc' = [pc EXCEPT ![g] = Advance(g)]
-          /\ UNCHANGED <<fault, victim, progs, link, wire, rcv, up, pan, raw>>
+          /\ UNCHANGED <<fault, victim, progs, link, wire, rcv, up, dropped, raw>>
 \* the queue towards d can never drain again
 Blocked(d) == \/ (fault = "down" /\ d = victim)
               \/ (Stalled(d) /\ Len(wire[d]) >= WCap)
-\* deviation of the code: the enqueue timeout (10 s) panics in the calling goroutine
-EnqTimeout(g) == /\ ~Finished(g) /\ g \notin pan
+\* the enqueue timeout (10 s): Send reports the full queue, gives this copy up (it was not accepted for sending) and goes on
+\* with the next destination / message (the code used to panic here; repaired)
+EnqTimeout(g) == /\ ~Finished(g)
                  /\ Len(q[CurDst(g)]) >= QCap /\ Blocked(CurDst(g))
-                 /\ pan' = pan \cup {g}
-                 /\ PrintT(<<"PANIC", ToJson([fault |-> fault, victim |-> victim, progs |-> ProgsRec(progs), g |-> g])>>)
-                 /\ UNCHANGED <<fault, victim, progs, pc, q, started, link, wire, rcv, up, raw>>
+                 /\ dropped' = dropped \cup {<<g, pc[g][1], CurDst(g)>>}
+                 /\ pc' = [pc EXCEPT ![g] = Advance(g)]
+                 /\ PrintT(<<"DROP", ToJson([fault |-> fault, victim |-> victim, progs |-> ProgsRec(progs), g |-> g])>>)
+                 /\ UNCHANGED <<fault, victim, progs, q, started, link, wire, rcv, up, raw>>
 Connect(d) == /\ started[d] /\ link[d] = "none" /\ up[d]
               /\ link' = [link EXCEPT ![d] = "up"]
-              /\ UNCHANGED <<fault, victim, progs, pc, q, started, wire, rcv, up, pan, raw>>
+              /\ UNCHANGED <<fault, victim, progs, pc, q, started, wire, rcv, up, dropped, raw>>
 Write(d) == /\ link[d] = "up" /\ q[d] # <<>> /\ Len(wire[d]) < WCap
             /\ wire' = [wire EXCEPT ![d] = Append(@, Head(q[d]))]
             /\ q' = [q EXCEPT ![d] = Tail(@)]
-            /\ UNCHANGED <<fault, victim, progs, pc, started, link, rcv, up, pan, raw>>
+            /\ UNCHANGED <<fault, victim, progs, pc, started, link, rcv, up, dropped, raw>>
 Read(d) == /\ up[d] /\ ~Stalled(d) /\ wire[d] # <<>>
            /\ rcv' = [rcv EXCEPT ![d] = Append(@, <<1, Head(wire[d])>>)]
            /\ wire' = [wire EXCEPT ![d] = Tail(@)]
-           /\ UNCHANGED <<fault, victim, progs, pc, q, started, link, up, pan, raw>>
+           /\ UNCHANGED <<fault, victim, progs, pc, q, started, link, up, dropped, raw>>
 LateUp == /\ fault = "late" /\ ~up[victim]
           /\ up' = [up EXCEPT ![victim] = TRUE]
-          /\ UNCHANGED <<fault, victim, progs, pc, q, started, link, wire, rcv, pan, raw>>
+          /\ UNCHANGED <<fault, victim, progs, pc, q, started, link, wire, rcv, dropped, raw>>
 RawWrite == /\ raw.todo # <<>> /\ Len(raw.wire) < WCap
             /\ raw' = [raw EXCEPT !.todo = Tail(@), !.wire = Append(@, Head(raw.todo))]
-            /\ UNCHANGED <<fault, victim, progs, pc, q, started, link, wire, rcv, up, pan>>
+            /\ UNCHANGED <<fault, victim, progs, pc, q, started, link, wire, rcv, up, dropped>>
 \* the reader of the healthy receiver on the garbling peer's connection: a broken / oversized frame ends that reader
 RawRead == /\ raw.wire # <<>> /\ ~raw.dead
            /\ IF Head(raw.wire) = BadFrame
                 THEN raw' = [raw EXCEPT !.wire = Tail(@), !.dead = TRUE] /\ rcv' = rcv
                 ELSE raw' = [raw EXCEPT !.wire = Tail(@)] /\ rcv' = [rcv EXCEPT ![Other(victim)] = Append(@, <<victim, Head(raw.wire)>>)]
-           /\ UNCHANGED <<fault, victim, progs, pc, q, started, link, wire, up, pan>>
+           /\ UNCHANGED <<fault, victim, progs, pc, q, started, link, wire, up, dropped>>
 
 Healthy(d) == ~(fault \in {"down", "stalled"} /\ d = victim)
-FTerminal == /\ \A g \in Gs : Finished(g) \/ g \in pan
+FTerminal == /\ \A g \in Gs : Finished(g)
              /\ \A d \in Recvs : Healthy(d) => (q[d] = <<>> /\ wire[d] = <<>>)
              /\ \A d \in Recvs : (~Healthy(d) /\ started[d]) => (link[d] = "up" \/ ~up[d])
              /\ \A d \in Recvs : Stalled(d) => (q[d] = <<>> \/ Len(wire[d]) >= WCap)
@@ -302,7 +309,8 @@ Rng(s) == {s[i] : i \in DOMAIN s}
 IsPrefix(a, b) == Len(a) <= Len(b) /\ \A i \in 1..Len(a) : a[i] = b[i]
 \* ids goroutine g has enqueued so far towards d / will ever enqueue, in program order
 PosIn(seq, d) == CHOOSE j \in DOMAIN seq : seq[j] = d
-EnqueuedTo(g, k, d) == k < pc[g][1] \/ (k = pc[g][1] /\ PosIn(progs[g][k].to, d) < pc[g][2])
+EnqueuedTo(g, k, d) == /\ k < pc[g][1] \/ (k = pc[g][1] /\ PosIn(progs[g][k].to, d) < pc[g][2])
+                       /\ <<g, k, d>> \notin dropped
 SentSeq(g, d, all) ==
   LET ks == {k \in DOMAIN progs[g] : d \in Rng(progs[g][k].to) /\ (all \/ EnqueuedTo(g, k, d))} IN
   [i \in 1..Cardinality(ks) |-> progs[g][CHOOSE k \in ks : Cardinality({k2 \in ks : k2 < k}) = i - 1].id]
@@ -318,18 +326,15 @@ OversizeRefused == \A d \in Recvs : \A i \in 1..Len(rcv[d]) : rcv[d][i][2] \noti
 DeliveredAtQuiescence == FTerminal => \A d \in Recvs : Healthy(d) => \A g \in Gs :
                             [i \in 1..Len(SelectSeq(FromSender(d), LAMBDA x : x[2] \in IdsOf(g, d))) |->
                                 SelectSeq(FromSender(d), LAMBDA x : x[2] \in IdsOf(g, d))[i][2]] = SentSeq(g, d, FALSE)
-\* a goroutine that does not address the faulty peer is never affected by it
-Touches(g, v) == \E k \in DOMAIN progs[g] : v \in Rng(progs[g][k].to)
-FaultIsolated == FTerminal => \A g \in Gs : ~Touches(g, victim) => (Finished(g) /\ g \notin pan)
-DevEnqueueTimeout == pan # {} /\ fault \in {"down", "stalled"}
-NoPanic == pan = {} \/ DevEnqueueTimeout
-StrictNoPanic == pan = {}
-
+\* a faulty peer stops nobody: every goroutine gets through its program (what it addressed to the other peers is delivered:
+\* DeliveredAtQuiescence), and copies are given up only towards a peer that is down or stalled
+FaultIsolated == FTerminal => \A g \in Gs : Finished(g)
+DropsOnlyToUnresponsive == \A x \in dropped : x[3] = victim /\ fault \in {"down", "stalled"}
 (* ====================================================================== *)
 
 HIdle == atk = HonestHS /\ cst = [c \in HConns |-> [st |-> "done", node |-> 0]] /\ attr = {} /\ alive = TRUE
 FIdle == /\ fault = "none" /\ victim = 2 /\ progs = <<>> /\ pc = <<>> /\ q = <<>> /\ started = <<>> /\ link = <<>> /\ wire = <<>>
-         /\ rcv = <<>> /\ up = <<>> /\ pan = {} /\ raw = [todo |-> <<>>, wire |-> <<>>, dead |-> FALSE]
+         /\ rcv = <<>> /\ up = <<>> /\ dropped = {} /\ raw = [todo |-> <<>>, wire |-> <<>>, dead |-> FALSE]
 vars == <<hvars, fvars>>
 Init == IF Part = "hs" THEN HInit /\ FIdle ELSE FInit /\ HIdle
 Next == IF Part = "hs" THEN HNext /\ UNCHANGED fvars ELSE FNext /\ UNCHANGED hvars
